@@ -18,6 +18,7 @@ import re, hashlib
 from common import *
 import cmini
 from cmini import Emitter, parse_body, unblock
+import cursor
 
 
 def norm(s):
@@ -685,6 +686,77 @@ def gen_dispatch(src):
     return out
 
 
+# ------------------------------------------------------------------ translated cursor functions (Gen/LitReadersGen.lean)
+
+READER_CALLS = {'isxdigit': ('bool', 'isxdigit'), 'from_hex': ('i32', 'fromHex')}
+
+READERS_PREAMBLE = '''/-- `<ctype.h>` `isxdigit` in the C locale, on a `char` (glibc: false for every byte outside ASCII); libc, trusted -/
+def isxdigit (b : BitVec 8) : Bool :=
+  (48 ≤ b.toNat && b.toNat ≤ 57) || (97 ≤ b.toNat && b.toNat ≤ 102) || (65 ≤ b.toNat && b.toNat ≤ 70)
+
+'''
+
+
+def gen_readers(repo, src):
+    """from_hex, read_escaped_char, read_universal_char, string_literal_end -> Lean, statement by statement"""
+    defs = []
+    errors = []
+
+    def take(fn):
+        for c in fn.errors:
+            if c not in errors:
+                errors.append(c)
+
+    # ---- from_hex(char c)
+    body = fn_body(src, 'from_hex', r'^static\s+int\s+from_hex\s*\(\s*char\s+c\s*\)\s*\{')
+    f = cursor.CursorFn('from_hex', 'fromHex', [('c', 'byte')], 'value:i32', '', False, {})
+    f.uses_text = False
+    defs.append(f.translate(parse_body(body), 'tokenize.c `from_hex(char c)`: `c` is promoted to `int` (sign extension), the result is `int`'))
+
+    # ---- read_escaped_char(char **new_pos, char *p): everything before the `switch`, then the switch (clang table)
+    body = strip_comments(fn_body(src, 'read_escaped_char',
+                                  r'^static\s+int\s+read_escaped_char\s*\(\s*char\s*\*\*\s*new_pos\s*,\s*char\s*\*\s*p\s*\)\s*\{'))
+    m = re.search(r'switch\s*\(\s*\*p\s*\)\s*\{', body)
+    if not m:
+        raise ExtractError('read_escaped_char: `switch (*p)` not found')
+    head = parse_body(body[:m.start()])
+
+    def final_switch(fn, st):
+        if st.newpos is None:
+            raise ExtractError('read_escaped_char: the switch is reached before *new_pos is set')
+        return fn.ok(f'escapeSwitch (byteAt p ({cursor.idx_text(st.base, st.k)})), {cursor.idx_text(*st.newpos)}')
+    f = cursor.CursorFn('read_escaped_char', 'readEscapedChar', [], 'value+newpos', '', True, READER_CALLS, final_switch)
+    esc = f.translate(head, 'tokenize.c `read_escaped_char(&new_pos, p)`: `p` is the text after the backslash; the value and `new_pos - p`')
+    take(f)
+    defs.append('/-- the `switch (*p)` of `read_escaped_char` (table: Gen/LiteralsGen.lean `simpleEscapes`, from the clang AST);\n'
+                '    default arm `return *p;` (`char` to `int`) -/\n'
+                'def escapeSwitch (b : BitVec 8) : BitVec 32 :=\n  match simpleEscapes.lookup b.toNat with\n'
+                '  | some v => BitVec.ofNat 32 v\n  | none => b.signExtend 32\n')
+    defs.append(esc)
+
+    # ---- read_universal_char(char *p, int len)
+    body = fn_body(src, 'read_universal_char', r'^static\s+uint32_t\s+read_universal_char\s*\(\s*char\s*\*\s*p\s*,\s*int\s+len\s*\)\s*\{')
+    f = cursor.CursorFn('read_universal_char', 'readUniversalChar', [('len', 'nat')], 'value:u32', '', False, READER_CALLS)
+    defs.append(f.translate(parse_body(body),
+                            'tokenize.c `read_universal_char(p, len)` (`uint32_t`): 0 if one of the `len` bytes is not a hexadecimal digit'))
+
+    # ---- string_literal_end(char *p)
+    body = fn_body(src, 'string_literal_end', r'^static\s+char\s*\*\s*string_literal_end\s*\(\s*char\s*\*\s*p\s*\)\s*\{')
+    f = cursor.CursorFn('string_literal_end', 'stringLiteralEnd', [], 'pos', 'start', True, READER_CALLS)
+    sle = f.translate(parse_body(body), 'tokenize.c `string_literal_end(p)` with `p` = text + `start`: index of the closing quote')
+    take(f)
+    defs.append(sle)
+
+    out = HEADER.format(tool='literals.py (+cursor.py, cmini.py)', src='tokenize.c')
+    out += 'import ChibiVerif.Gen.LiteralsGen\n\nnamespace ChibiVerif.Gen.LitReaders\nopen ChibiVerif.Gen.Literals\n\n'
+    out += READERS_PREAMBLE
+    out += '/-- the `error_at` sites of the translated functions, named after their messages -/\ninductive ReadErr\n'
+    out += ''.join(f'  | {c}\n' for c in errors) + '  deriving DecidableEq, Repr\n\n'
+    out += '\n'.join(defs)
+    out += '\nend ChibiVerif.Gen.LitReaders\n'
+    return out
+
+
 def check_pins(repo, src):
     for name, (sig, text) in PINS_TOKENIZE.items():
         pin(strip_comments(function_body(src, sig, name)), text, f'tokenize.c {name}')
@@ -719,4 +791,4 @@ def generate(repo):
     out += gen_escape(repo, tsrc) + '\n'
     out += gen_dispatch(tsrc) + '\n'
     out += 'end ChibiVerif.Gen.Literals\n'
-    return {'LiteralsGen.lean': out}
+    return {'LiteralsGen.lean': out, 'LitReadersGen.lean': gen_readers(repo, tsrc)}
